@@ -148,6 +148,8 @@ func specTxs(w *world, ps poolSpec) []utx {
 		return poolLocks(w)
 	case "star":
 		return poolStar(w, ps.A)
+	case "witstar":
+		return poolWitStar(w, ps.A)
 	case "p2sh":
 		return poolP2SH(w, ps.A)
 	}
@@ -1252,6 +1254,7 @@ func main() {
 		jobs = append(jobs, job{w, poolSpec{Kind: "chain", A: 3}, cOpts})
 		jobs = append(jobs, job{w, poolSpec{Kind: "chain", A: 25}, cOpts})
 		jobs = append(jobs, job{w, poolSpec{Kind: "star", A: 260}, enumOpts{permLimit: 1, addrs: []string{"p2pkh"}}})
+		jobs = append(jobs, job{w, poolSpec{Kind: "witstar", A: 40}, enumOpts{permLimit: 1, addrs: []string{"p2pkh"}}})
 		jobs = append(jobs, job{w, poolSpec{Kind: "locks"}, enumOpts{permLimit: 6, full: thorough, addrs: []string{"p2pkh"}}})
 		for _, kb := range [][2]int{{4, 0}, {4, 1}, {3, 1}, {3, 2}, {5, 0}} {
 			jobs = append(jobs, job{w, poolSpec{Kind: "sigops", A: kb[0], B: kb[1]}, cOpts})
@@ -1292,7 +1295,7 @@ func main() {
 		"worlds":               worldNames(),
 		"universe":             "u0 root; u1<-u0 (best fee rate); u2<-u0 (fee rate < 1000 sat/kB); u3<-u1,u2 (diamond, chain of 3); u4 zero fee/high priority; u5 P2WPKH spend; u6<-u5 (witness, in-pool parent) + mined coin; u7 lock time = tip height",
 		"pool_subsets":         map[bool]string{true: "all 2^8 subsets, submitted parents-first and children-first (through the orphan pool)", false: "all 72 ancestor-closed subsets of the 2^8 (a non-closed subset leaves orphans outside the pool and equals the pool of its closed part), submitted parents-first; the full set also children-first"}[thorough],
-		"constructed_pools":    "dependency chains of 3 and 25; star of one parent with 260 children (262 block transactions: 3-byte count); lock pool (BIP68 relative height lock and lock time satisfied exactly at the next height, zero-lock child of an in-pool parent); 5000-sigop transactions (3,4,5 of them = 60000/80000/100000 cost) with 0..2 one-sigop transactions; a P2SH spend whose redeem script holds 1/15/150 unexecuted OP_CHECKSIGs, before and after segwit activation; nine ~111 kB transactions landing exactly on / 4 WU past BlockMaxWeight 3,996,000 and 4,000,000",
+		"constructed_pools":    "dependency chains of 3 and 25; star of one parent with 260 children (262 block transactions: 3-byte count); star of one parent with 40 P2WPKH outputs and 40 witness-carrying children; lock pool (BIP68 relative height lock and lock time satisfied exactly at the next height, zero-lock child of an in-pool parent); 5000-sigop transactions (3,4,5 of them = 60000/80000/100000 cost) with 0..2 one-sigop transactions; a P2SH spend whose redeem script holds 1/15/150 unexecuted OP_CHECKSIGs, before and after segwit activation; nine ~111 kB transactions landing exactly on / 4 WU past BlockMaxWeight 3,996,000 and 4,000,000",
 		"max_weight_values":    "3,000,000; W+33, W+32, W+1, W, W-1; W-w_i+33 for every pooled tx i (pools over 30 txs: first and last three) (W = reference weight of the block holding the complete pool); 3,996,000; 4,000,000",
 		"other_policy_values":  map[string]interface{}{"BlockPrioritySize": "0, W/2, 1,000,000", "TxMinFreeFee": "0, 1000, 100,000,000", "BlockMinWeight": "0, W/2, W+1000", "BlockMaxSize": "999,000; S and S-1 together with BlockMaxWeight 2,000,000"},
 		"policy_cross_product": map[bool]string{true: "full", false: "max_weight x {prio 0, W/2} x {(minfree,minweight) in (0,0),(1000,0),(1000,W+1000),(1e8,W/2)} plus each remaining value once with a non-binding max weight"}[uOpts.full],
